@@ -4,7 +4,7 @@
 From Coq Require Import ZArith QArith List Bool Lia.
 From EosV Require Import lib.AList gen.T_eos model.World model.Status model.Calc model.Engine model.Ops
      model.Wf proofs.AList_p proofs.Rack_p proofs.Frame_p proofs.Containers_p proofs.Status_p proofs.Owner_p
-     proofs.Cinv_p proofs.Runs_p proofs.RunsC_p.
+     proofs.Cinv_p proofs.Runs_p proofs.Link_p proofs.RunsC_p.
 Import ListNotations.
 
 Opaque add_item remove_item load unload.
@@ -1726,19 +1726,158 @@ Proof.
     + apply Hu. apply in_or_app. now right.
 Qed.
 
+(* ------------------------------------------------------------------ *)
+(* a source switch: what the first phase leaves behind                  *)
+
+(* after the item lists of the fits in l were unloaded: every directly held item whose container reference names
+   a container of one of these fits is unloaded, and whatever was unloaded stays unloaded *)
+Lemma unload_fits_cont : forall (l : list nat) (s : st),
+  KJ (fst s) -> CI (fst s) -> w_err (fst (fold_left unload_fit_items l s)) = None ->
+  let s' := fold_left unload_fit_items l s in
+  KJ (fst s') /\ CI (fst s') /\
+  (forall j, fitcont (fst s') j = fitcont (fst s) j) /\
+  (forall j, dir_unloaded (fst s) j -> dir_unloaded (fst s') j) /\
+  (forall f, In f l -> forall j jit, get_item (fst s') j = Some jit -> direct jit ->
+             fit_of_place (i_cont jit) = Some f -> i_loaded jit = None).
+Proof.
+  induction l as [|f0 l IH]; intros s R C He; cbn [fold_left] in *.
+  - cbv zeta. split; [exact R|split; [exact C|split; [reflexivity|split; [auto|intros f []]]]].
+  - assert (He1 : w_err (fst (unload_fit_items s f0)) = None).
+    { revert He. apply (C_fold sticky sticky_refl sticky_trans). intros; apply unload_fit_items_sticky. }
+    destruct (unload_fit_items_KJ s f0 R He1) as (R1 & Hu1).
+    pose proof (unload_fit_items_MK s f0 (proj1 C)) as MK1.
+    pose proof (CI_MK _ _ C MK1) as C1.
+    destruct MK1 as ((Fc1 & _) & _).
+    destruct (IH (unload_fit_items s f0) R1 C1 He) as (R' & C' & Fc' & Keep' & Un').
+    cbv zeta. split; [exact R'|split; [exact C'|split; [|split]]].
+    + intros j. now rewrite Fc', Fc1.
+    + intros j Hj. apply Keep'. apply Hu1. now right.
+    + intros f [<-|If] j jit G D Ef; [|now apply (Un' f If j jit G D Ef)].
+      (* j names a container of f0 now, so it did at the start, so it was listed and has been unloaded *)
+      destruct (fit_of_place_fitcont jit f0 Ef) as (p & Ep & Hp).
+      assert (Fj : fitcont (fst s) j = Some p) by (rewrite <- Fc1, <- Fc'; unfold fitcont; now rewrite G).
+      assert (Ij : In j (fit_list (fst s) f0)).
+      { apply (members_fit_list (fst s) p f0 j Hp). destruct C as (_ & M & _). now apply M. }
+      exact (Keep' j (Hu1 j (or_introl Ij)) jit G D).
+Qed.
+
+(* the item lists of two fits share nothing *)
+Lemma fit_list_disjoint w f g z : CI w -> KJ w -> f <> g -> In z (fit_list w f) -> In z (fit_list w g) -> False.
+Proof.
+  intros C (R & K & _ & (C1 & _ & _) & _) Nfg If Ig. pose proof C as (Js & M & _). pose proof (CI_LD w C) as Ld.
+  unfold fit_list in If, Ig.
+  destruct (get_fit w f) as [ft|] eqn:Gf; [|destruct If]. destruct (get_fit w g) as [gt|] eqn:Gg; [|destruct Ig].
+  unfold fit_items in If, Ig. apply in_flat_map in If as (i & Ii & Hz). apply in_flat_map in Ig as (i' & Ii' & Hz').
+  destruct (top_item_place w f ft i Gf Ii) as (p & Hp & Im). destruct (top_item_place w g gt i' Gg Ii') as (q & Hq & Im').
+  destruct (Ld p i Im) as (it & G & D). destruct (Ld q i' Im') as (it' & G' & D').
+  assert (Top : i = i' -> False).
+  { intros ->. apply M in Im. apply M in Im'. rewrite Im in Im'. injection Im' as ->. congruence. }
+  assert (Hch : forall a ait c, get_item w a = Some ait -> i_charge ait = Some c ->
+                exists cit, get_item w c = Some cit /\ ~ direct cit /\ i_cont cit = Some (PCharge a)).
+  { intros a ait c Ga E. destruct (C1 a ait c Ga E) as (cit & Gc & Ec). exists cit. split; [exact Gc|split; [|exact Ec]].
+    destruct Js as (_ & _ & _ & J5). pose proof (J5 a ait c Ga E) as Cc. unfold cls_of in Cc. rewrite Gc in Cc.
+    injection Cc as Cc. apply direct_childcls. now right. }
+  rewrite G in Hz. rewrite G' in Hz'. unfold child_items in Hz, Hz'. rewrite app_nil_r in Hz, Hz'.
+  destruct Hz as [<-|Hz]; destruct Hz' as [E'|Hz'].
+  - now apply Top.
+  - destruct (i_charge it') as [c'|] eqn:Ec'; [|destruct Hz']. destruct Hz' as [<-|[]].
+    destruct (Hch i' it' c' G' Ec') as (cit & Gc & Dc & _). rewrite G in Gc. injection Gc as <-. contradiction.
+  - destruct (i_charge it) as [c|] eqn:Ec; [|destruct Hz]. destruct Hz as [Ez|[]].
+    assert (Eci : c = i') by congruence. rewrite Eci in Ec. clear Ez Eci.
+    destruct (Hch i it i' G Ec) as (cit & Gc & Dc & _). rewrite G' in Gc. injection Gc as <-. contradiction.
+  - destruct (i_charge it) as [c|] eqn:Ec; [|destruct Hz]. destruct Hz as [<-|[]].
+    destruct (i_charge it') as [c'|] eqn:Ec'; [|destruct Hz']. destruct Hz' as [<-|[]].
+    destruct (Hch i it c' G Ec) as (cit & Gc & _ & E1). destruct (Hch i' it' c' G' Ec') as (cit' & Gc' & _ & E2).
+    rewrite Gc in Gc'. injection Gc' as <-. apply Top. congruence.
+Qed.
+
+(* the state between unloading and reloading *)
+Lemma unload_fit_items_S s f : structure (fst (unload_fit_items s f)) = structure (fst s).
+Proof.
+  unfold unload_fit_items. destruct (get_fit (fst s) f); [apply S_fold; intros; apply S_unload|].
+  unfold lift. cbn [fst]. apply S_fail.
+Qed.
+
+Lemma src_mid_facts s x y new :
+  KJ (fst s) -> CI (fst s) -> SSI (fst s) -> get_ss (fst s) x = Some y -> onat_eqb (ss_source y) new = false ->
+  w_err (fst (src_mid s x y new)) = None ->
+  let m := fst (src_mid s x y new) in
+  LS m /\
+  (NoDup (flat_map (fit_list m) (ss_fit_list m x)) /\
+   forall j, In j (flat_map (fit_list m) (ss_fit_list m x)) -> dir_unloaded m j).
+Proof.
+  intros R C I Gy Hne He. cbv zeta.
+  unfold src_mid in *.
+  set (s1 := match ss_source y with Some _ => fold_left unload_fit_items (ss_fits y) s | None => s end) in *.
+  assert (He1 : w_err (fst s1) = None).
+  { unfold lift in He. cbn [fst] in He. destruct (get_ss (fst s1) x); [exact He|destruct (err_fail_none _ _ He)]. }
+  (* phase 1 *)
+  assert (P1 : KJ (fst s1) /\ CI (fst s1) /\ structure (fst s1) = structure (fst s) /\
+               (forall f j jit, In f (ss_fits y) -> get_item (fst s1) j = Some jit -> direct jit ->
+                                fit_of_place (i_cont jit) = Some f -> i_loaded jit = None)).
+  { unfold s1 in *. destruct (ss_source y) as [old|] eqn:Eo.
+    - destruct (unload_fits_cont (ss_fits y) s R C He1) as (R1 & C1 & _ & _ & Un).
+      split; [exact R1|split; [exact C1|split]].
+      + apply S_fold. intros; apply unload_fit_items_S.
+      + intros f j jit If G D Ef. exact (Un f If j jit G D Ef).
+    - split; [exact R|split; [exact C|split; [reflexivity|]]].
+      (* no source: by LS nothing of these fits is loaded *)
+      intros f j jit If G D Ef. destruct (i_loaded jit) as [src|] eqn:El; [|reflexivity]. exfalso.
+      destruct R as (_ & _ & _ & _ & Ls). destruct (Ls j jit src G D El) as (f' & Ef' & Es).
+      assert (f' = f) by congruence. subst f'.
+      assert (Efs : fit_solsys (fst s) f = Some x) by (apply I; unfold ss_fit_list; now rewrite Gy).
+      unfold fit_source_id in Es. rewrite Efs, Gy, Eo in Es. discriminate. }
+  destruct P1 as (R1 & C1 & St1 & Un1).
+  assert (Gy1 : get_ss (fst s1) x = Some y).
+  { unfold get_ss. unfold structure in St1. assert (E : w_ss (fst s1) = w_ss (fst s)) by congruence. rewrite E. exact Gy. }
+  assert (I1 : SSI (fst s1)) by (apply (SSI_same_link (fst s)); [now apply sl_structure|exact I]).
+  unfold lift in *. cbn [fst] in *. rewrite Gy1 in *.
+  set (m := put_ss (fst s1) x (mkSolsys new (ss_fits y))).
+  assert (Gi : forall j, get_item m j = get_item (fst s1) j) by reflexivity.
+  assert (Gf : forall f, get_fit m f = get_fit (fst s1) f) by reflexivity.
+  assert (Fl : forall f, fit_list m f = fit_list (fst s1) f) by reflexivity.
+  assert (Lx : ss_fit_list m x = ss_fits y).
+  { unfold ss_fit_list, get_ss, m, put_ss. cbn [w_ss set_sss]. now rewrite al_get_set_same. }
+  assert (Src : forall f, fit_solsys (fst s1) f <> Some x -> fit_source_id m f = fit_source_id (fst s1) f).
+  { intros f Nf. unfold fit_source_id. change (fit_solsys m f) with (fit_solsys (fst s1) f).
+    destruct (fit_solsys (fst s1) f) as [z|]; [|reflexivity].
+    unfold get_ss, m, put_ss. cbn [w_ss set_sss]. rewrite al_get_set_other; [reflexivity|]. intros ->. congruence. }
+  (* nothing that sits on a fit of x is loaded *)
+  assert (UnX : forall f j jit, fit_solsys (fst s1) f = Some x -> get_item (fst s1) j = Some jit -> direct jit ->
+                                fit_of_place (i_cont jit) = Some f -> i_loaded jit = None).
+  { intros f j jit Ef G D Ep. apply (Un1 f j jit); try assumption.
+    destruct I1 as (I1a & _). apply I1a in Ef. unfold ss_fit_list in Ef. now rewrite Gy1 in Ef. }
+  split; [|split].
+  - intros j jit src G D El. rewrite Gi in G.
+    destruct R1 as (_ & _ & _ & _ & Ls1). destruct (Ls1 j jit src G D El) as (f & Ef & Es).
+    exists f. split; [exact Ef|]. rewrite Src; [exact Es|]. intros Efx. pose proof (UnX f j jit Efx G D Ef). congruence.
+  - rewrite Lx. apply NoDup_flat_map_disjoint.
+    + destruct I as (_ & I2). specialize (I2 x). unfold ss_fit_list in I2. now rewrite Gy in I2.
+    + intros f _. rewrite Fl. now apply fit_list_nodup.
+    + intros f g z _ _ Nfg. rewrite !Fl. now apply (fit_list_disjoint (fst s1)).
+  - rewrite Lx. intros j Ij jit G D. rewrite Gi in G. apply in_flat_map in Ij as (f & If & Ij). rewrite Fl in Ij.
+    (* a directly held item in the list of f is a top item of f: its reference names a container of f *)
+    pose proof C1 as (Js1 & M1 & _).
+    unfold fit_list in Ij. destruct (get_fit (fst s1) f) as [ft|] eqn:Gft; [|destruct Ij].
+    unfold fit_items in Ij. apply in_flat_map in Ij as (i & Ii & Hj). destruct Hj as [<-|Hj].
+    + destruct (top_item_place (fst s1) f ft i Gft Ii) as (p & Hp & Im). apply M1 in Im. unfold fitcont in Im. rewrite G in Im.
+      apply (Un1 f i jit If G D). unfold fitcont_of in Im. unfold fit_of_place.
+      destruct (i_cont jit) as [[a b|a b|a b|z|z]|]; try discriminate; injection Im as <-; cbn in Hp; congruence.
+    + exfalso. destruct (get_item (fst s1) i) as [it|] eqn:Gi1; [|destruct Hj]. unfold child_items in Hj. rewrite app_nil_r in Hj.
+      destruct (i_charge it) as [c|] eqn:Ec; [|destruct Hj]. destruct Hj as [<-|[]].
+      destruct Js1 as (_ & _ & _ & J5). pose proof (J5 i it c Gi1 Ec) as Cc. unfold cls_of in Cc. rewrite G in Cc.
+      injection Cc as Cc. apply (proj2 (direct_childcls jit)); [right; exact Cc|exact D].
+Qed.
+
 Theorem source_set_op_KJ s x new :
-  KJ (fst s) ->
-  (forall y, get_ss (fst s) x = Some y -> onat_eqb (ss_source y) new = false -> LS (fst (src_mid s x y new))) ->
-  (forall y, get_ss (fst s) x = Some y -> new <> None ->
-     let m := fst (src_mid s x y new) in
-     NoDup (flat_map (fit_list m) (ss_fit_list m x)) /\
-     forall j, In j (flat_map (fit_list m) (ss_fit_list m x)) -> dir_unloaded m j) ->
+  KJ (fst s) -> CI (fst s) -> SSI (fst s) ->
   w_err (fst (fst (source_set_op s x new))) = None -> KJ (fst (fst (source_set_op s x new))).
 Proof.
-  intros R HypL Hyp. unfold source_set_op. destruct (get_ss (fst s) x) as [y|] eqn:Gy;
+  intros R C I. pose proof (src_mid_facts s x) as Facts.
+  unfold source_set_op. destruct (get_ss (fst s) x) as [y|] eqn:Gy;
     [|cbn [fst]; unfold lift; cbn [fst]; intros He; destruct (err_fail_none _ _ He)].
-  specialize (Hyp y eq_refl). specialize (HypL y eq_refl).
-  destruct (onat_eqb (ss_source y) new); [auto|]. specialize (HypL eq_refl).
+  specialize (Facts y new R C I eq_refl).
+  destruct (onat_eqb (ss_source y) new); [auto|]. specialize (Facts eq_refl).
   match goal with |- context[if ?b then (s, RExn XUnknownSource) else _] => destruct b end; [auto|]. cbn [fst].
   change (lift (match ss_source y with Some _ => fold_left unload_fit_items (ss_fits y) s | None => s end)
                (fun w => match get_ss w x with Some y0 => put_ss w x (mkSolsys new (ss_fits y0)) | None => fail w EKeyAbsent end))
@@ -1752,10 +1891,11 @@ Proof.
   assert (K12 : sticky (fst s1) (fst (src_mid s x y new))).
   { unfold src_mid. fold s1. unfold lift. cbn [fst]. destruct (get_ss (fst s1) x); [intros H; exact H|apply sticky_fail]. }
   destruct new as [sid|].
-  - intros He. destruct Hyp as (Hn & Hu); [discriminate|].
+  - intros He.
     assert (E2 : w_err (fst (src_mid s x y (Some sid))) = None).
     { exact (C_fold sticky sticky_refl sticky_trans load_fit_items _ load_fit_items_sticky _ He). }
+    destruct (Facts E2) as (HypL & Hn & Hu).
     apply load_fits_KJ; [|exact Hn|exact Hu|exact He].
     eapply KJ_same_is_ls; [exact S12|exact HypL|]. apply H1. now apply K12.
-  - intros He. eapply KJ_same_is_ls; [exact S12|exact HypL|]. apply H1. now apply K12.
+  - intros He. destruct (Facts He) as (HypL & _). eapply KJ_same_is_ls; [exact S12|exact HypL|]. apply H1. now apply K12.
 Qed.
